@@ -53,6 +53,10 @@ PRINT_ORDER = [0x01, 0x03, 0x04, 0x05, 0x06, 0x07, 0x08, 0x09, 0x20, 0x0a, 0x0b,
 INT_IDS = [i for i, r in RFC.items() if r[1][0] == "int"]
 
 
+# value lengths of UNKNOWN parameters beyond 0..20: both sides of the 1|2-byte and 2|4-byte length-varint boundaries
+BIG_UNKNOWN_LENS = [63, 64, 65, 255, 300, 16383, 16384]
+
+
 def hexs(b):
     return bytes(b).hex() if b else "-"
 
@@ -332,9 +336,17 @@ def gen(rng, n, tier):
     dec(tlv(0xdc0000, vi(1) + [0x80, 0]))
     dec(tlv(0xdc0000, vi(7, 8) + vi(8, 4) + vi(9, 2)))
     # 3. unknown ids (incl. GREASE 31*N+27) with lengths 0..20, every id/length encoding, truncated / over-long
-    for u in UNKNOWN:
+    for k, u in enumerate(UNKNOWN):
         for ln in range(0, 21):
             dec(tlv(u, [rng.randrange(256) for _ in range(ln)]), rng.choice(roles))
+        # values whose LENGTH needs a 2- or 4-byte varint (63 | 64, 16383 | 16384): alone, and between two known
+        # parameters, so that a decoder mis-reading a multi-byte length of an unknown parameter loses alignment
+        for ln in BIG_UNKNOWN_LENS if k < 3 else BIG_UNKNOWN_LENS[:5]:
+            val = [rng.randrange(256) for _ in range(ln)]
+            dec(tlv(u, val), rng.choice(roles))
+            dec(tlv(0x04, vi(1000)) + tlv(u, val) + tlv(0x08, vi(7)), rng.choice(roles))
+            ll = rng.choice([x for x in (2, 4, 8) if ln < 1 << (8 * x - 2)])
+            dec(tlv(u, val, lenlen=ll) + tlv(0x0e, vi(3)), rng.choice(roles))
         dec(tlv(u, [1, 2, 3], declared=4))
         dec(tlv(u, [1, 2, 3], declared=2))
         dec(vi(u))
@@ -424,7 +436,8 @@ def gen(rng, n, tier):
             u = rng.choice(UNKNOWN) if rng.random() < 0.7 else rng.getrandbits(rng.choice([6, 14, 30, 62]))
             if u in RFC:
                 u += 0x40
-            return tlv(u, [rng.randrange(256) for _ in range(rng.randrange(0, 21))])
+            ln = rng.randrange(0, 21) if rng.random() < 0.8 else rng.choice(BIG_UNKNOWN_LENS[:5])
+            return tlv(u, [rng.randrange(256) for _ in range(ln)])
         # malformed item
         i = rng.choice(PRINT_ORDER + UNKNOWN)
         val = [rng.randrange(256) for _ in range(rng.randrange(0, 6))]
